@@ -69,7 +69,9 @@ def calls_named(fn, *suffixes):
     def pred(c):
         p = c.get("rpath") or ""
         q = c.get("path") or ""
-        return any(p == s or p.endswith("::" + s) or q == s or q.endswith("::" + s) for s in suffixes)
+        return any(p == s or p.endswith("::" + s.lstrip(":")) or q == s or q.endswith("::" + s.lstrip(":")) or
+                   (not s[0].isalnum() and (p.endswith(s) or q.endswith(s))) or
+                   (">" in s and (p.endswith(s) or q.endswith(s))) for s in suffixes)
     return calls_to(fn, pred)
 
 
